@@ -528,6 +528,9 @@ package grpcgcp
 //@   callsite notify#1 asserts [C15.notify-read-state] $arg1 == $call("GetState#1")
 //@   callsite WaitForStateChange#1 asserts [C15.wait-on-notified-state] $arg2 == $call("GetState#1")
 //@ func (mc *monitoredConn) notify
+// only the pool that is registered for an endpoint reports that endpoint's availability (a monitor that outlives its
+// pool's registration must not speak for the pool that replaced it)
+//@   callsite SetEndpointAvailability#1 asserts [C15.report-registered-pool] mc.endpoint in mc.gme.pools && mc.gme.pools[mc.endpoint] == mc
 //@ pred gmeSame(gme *GCPMultiEndpoint) := gme.defaultName == old(gme.defaultName) && (forall n string :: {n in gme.mes} (n in gme.mes) == old(n in gme.mes) && gme.mes[n] == old(gme.mes[n])) && (forall k int :: {$meHas[k]} $meHas[k] == old($meHas)[k])
 //@ pred poolsSame(gme *GCPMultiEndpoint) := forall e string :: {e in gme.pools} (e in gme.pools) == old(e in gme.pools) && gme.pools[e] == old(gme.pools[e])
 //@ pred poolsGrown(gme *GCPMultiEndpoint) := forall e string :: {e in gme.pools} old(e in gme.pools) ==> e in gme.pools && gme.pools[e] == old(gme.pools[e])
